@@ -1,11 +1,10 @@
 #!/bin/sh
-# usage: tools/try_seed.sh <worktree _out dir or seeded dir> <PROP> [extra check args]
-# applies patch.diff to /repo, runs the property's quick check, always restores /repo
+# usage: tools/try_seed.sh <dir with patch.diff> <PROP> [extra check args]
+# applies patch.diff to a scratch copy of /repo's working tree (never to /repo itself), runs the
+# property's quick check against that copy (--repo), removes the copy.
 d="$1"; prop="$2"; shift 2
-cd /repo || exit 3
-git diff --quiet || { echo "/repo is dirty; refusing"; exit 3; }
-git apply "$d/patch.diff" || { echo "patch does not apply"; exit 3; }
-cd /verif && python3-vt -m pyvc.check "$prop" --no-evidence "$@" 2>&1 | grep -v "^   obl" | cut -c1-300 | tail -15
-rc=$?
-git -C /repo checkout -- . 
-git -C /repo status --short | head -3
+tmp=$(mktemp -d /tmp/seedrepo.XXXXXX)
+cp -r /repo/svgpathtools "$tmp/"
+( cd "$tmp" && git init -q . && git apply "$d/patch.diff" ) || { echo "patch does not apply"; rm -rf "$tmp"; exit 3; }
+cd /verif && python3-vt -m pyvc.check "$prop" --no-evidence --repo "$tmp" "$@" 2>&1 | grep -v "^   obl" | cut -c1-300 | tail -15
+rm -rf "$tmp"
